@@ -32,4 +32,5 @@ let () = run_lines (function
     (match contigs with
      | [c] -> Printf.sprintf "M=%s C=%s" (set_str m) (set_str (find_candidate_kmers c k))
      | _ -> Printf.sprintf "M=%s" (set_str m))
+  | "big" :: _ -> "not-modelled"
   | _ -> "DRIVER-ERROR bad case")
